@@ -115,6 +115,10 @@ def corpus(bs):
         [("W", 0, 0, bs + 476, 0x31), ("R", 0, 0, bs), ("W", 0, bs, 476, 0x32), ("Z", 0, 2 * bs), ("R", 0, bs, bs)],
         [("W", 1, 0, 2 * bs + 100, 0x33), ("R", 1, bs, bs), ("W", 1, 2 * bs, 100, 0x34), ("W", 1, 3 * bs, 5, 0x35), ("R", 1, 2 * bs, bs + 5)],
         [("W", 0, 0, 1500, 0x36), ("O", 0), ("R", 0, 0, 10), ("W", 0, 0, 1500, 0x37), ("Z", 0, 4 * bs), ("R", 0, 0, 4 * bs)],
+        # 270 preallocated blocks (three leaves of 1k), every third written, then the blocks in front of the written ones: each of those writes hands the
+        # last block of an unwritten extent to the written extent behind it - also where that one is the first entry of the next leaf
+        (lambda nb: [("Z", 0, nb * bs), ("F", 0, 0, nb - 1)] + [("W", 0, i * bs, bs, 0x20 + i % 200) for i in range(0, nb, 3)] +
+         [("W", 0, i * bs, bs, 0x21 + i % 200) for i in range(2, nb, 3)] + [("R", 0, 0, nb * bs)])(270 if bs == 1024 else 90),
         [("W", 0, 0, 30 * bs, 0x79), ("P", 0, 0, 20)], [("W", 0, 0, 30 * bs, 0x7A), ("P", 0, 12, 12)], [("W", 0, 0, 30 * bs, 0x7B), ("P", 0, 11, 12)],
     ]
 
@@ -125,6 +129,42 @@ def corpus_case(src, hexe, mexe, k):
     bs = int(opts[opts.index("-b") + 1])
     seq = corpus(bs)[k // 4]
     return execute(src, hexe, mexe, name, opts, mkops(seq), 7000 + k)
+
+
+def enospc_ind_case(src):
+    """a block-mapped file, one free block left, a write at logical block 12: the indirect block gets the last free block,
+    the data block cannot be had - the failed write has to leave a consistent filesystem"""
+    T = lambda p_: os.path.join(src, p_)
+    env = e2v.tool_env(src)
+    img = os.path.join(WORK, "enospc.img")
+    host = {n: os.path.join(WORK, "enospc_" + n) for n in ("tiny", "filler", "sparse")}
+    open(host["tiny"], "wb").write(b"t" * 1024)
+    open(host["filler"], "wb").write(b"f" * (3 << 20))
+    with open(host["sparse"], "wb") as f:
+        f.seek(12 * 1024)
+        f.write(b"0123456789")
+    recipe = {"config": "ext2 1k 2M, one free block", "ops": ["write <hole of 12 blocks + 10 bytes> /f"], "directed": "enospc_ind"}
+    e2v.sh([T("misc/mke2fs"), "-q", "-F", "-t", "ext2", "-b", "1024", "-m", "0", "-O", "^resize_inode", img, "2M"], env=env, timeout=60)
+    e2v.sh([T("debugfs/debugfs"), "-w", "-f", "-", img], input=("write %s tiny\nwrite %s filler\n" % (host["tiny"], host["filler"])).encode(), env=env, timeout=120)
+    e2v.sh([T("e2fsck/e2fsck"), "-fy", img], env=env, timeout=120)
+    e2v.sh([T("debugfs/debugfs"), "-w", "-R", "rm tiny", img], env=env, timeout=60)
+    free = Fs(img).free_blocks if hasattr(Fs(img), "free_blocks") else None
+    rc0 = e2v.sh([T("e2fsck/e2fsck"), "-fn", img], env=env, timeout=120)
+    m = re.search(r"(\d+)/(\d+) blocks", rc0[1])
+    problems = []
+    st = {"nops": 1, "reads": 0}
+    if rc0[0] == 0 and m and int(m.group(2)) - int(m.group(1)) == 1:
+        rc, out = e2v.sh([T("debugfs/debugfs"), "-w", "-R", "write %s f" % host["sparse"], img], env=env, timeout=60)
+        rc2, out2 = e2v.sh([T("e2fsck/e2fsck"), "-fn", img], env=env, timeout=120)
+        recipe["free_blocks"] = 1
+        if rc2 != 0:
+            problems.append("after the refused write (%s) e2fsck -fn exits %d: %s" % (out.strip().split("\n")[-1][:80], rc2, " | ".join(l for l in out2.split("\n") if "differences" in l or "?" in l)[:200]))
+    else:
+        recipe["setup"] = "not reached"
+    for f in list(host.values()) + [img]:
+        if os.path.exists(f):
+            os.unlink(f)
+    return recipe, problems, st
 
 
 def one_case(src, hexe, mexe, idx, seed, tier):
@@ -233,9 +273,15 @@ def execute(src, hexe, mexe, name, opts, ops, idx):
         text = text.replace("@INO%d" % f, str(inos[f]))
     p = subprocess.run([hexe], input=text.encode(), stdout=subprocess.PIPE, stderr=subprocess.PIPE, timeout=600)
     hout = p.stdout.decode().split("\n")
-    mout = subprocess.run([mexe], input=("\n".join(ml) + "\n").encode(), stdout=subprocess.PIPE, timeout=900).stdout.decode().split("\n")
+    def big_stack():
+        import resource
+        try:
+            resource.setrlimit(resource.RLIMIT_STACK, (resource.RLIM_INFINITY, resource.RLIM_INFINITY))
+        except Exception:
+            pass
+    mout = subprocess.run([mexe], input=("\n".join(ml) + "\n").encode(), stdout=subprocess.PIPE, timeout=900, preexec_fn=big_stack).stdout.decode().split("\n")
     bexe = os.path.join(os.path.dirname(os.path.dirname(mexe)), "filebuf", "filebuf.exe")
-    bout = subprocess.run([bexe], input=("\n".join(bl) + "\n").encode(), stdout=subprocess.PIPE, timeout=900).stdout.decode().split("\n") if (not inline and not has_fa and (idx >= 7000 or idx % 4 == 0)) else []
+    bout = subprocess.run([bexe], input=("\n".join(bl) + "\n").encode(), stdout=subprocess.PIPE, timeout=900, preexec_fn=big_stack).stdout.decode().split("\n") if (not inline and not has_fa and (idx >= 7000 or idx % 4 == 0)) else []
     problems = []
     recipe = {"config": name, "mke2fs": opts, "ops": [m for _, m in ops if m][:60], "all_ops": [[h, m] for h, m in ops], "case_index": idx}
     if p.returncode != 0:
@@ -392,6 +438,7 @@ def run(res, replay=None):
         if not replay:
             outs = list(ex.map(lambda k: corpus_case(src, hexe, mexe, k), range(4 * len(corpus(1024))))) + outs
             outs += list(ex.map(lambda i: large_case(src, hexe, i, seed), range(9 if tier == "quick" else 600)))
+            outs.append(enospc_ind_case(src))
     bad = []
     reads = ops = 0
     for recipe, problems, st in outs:
